@@ -1,5 +1,5 @@
 (* Entry points of the extracted driver. *)
-From Curies.model Require Export CheckQ W3C CheckD CheckM CheckL CheckR Resolver Mapping Reference Bulk Writers CheckH.
+From Curies.model Require Export CheckQ W3C CheckD CheckM CheckL CheckR Resolver Mapping Reference Bulk Writers CheckW CheckH.
 Definition dispatch (entry prop : Z) (case obs : val) : val :=
   (if entry =? 1 then run_query prop case obs
    else if entry =? 20 then run_w3c case obs
@@ -12,5 +12,5 @@ Definition dispatch (entry prop : Z) (case obs : val) : val :=
    else if entry =? 18 then run_mapping case obs
    else if entry =? 15 then run_refs case obs
    else if entry =? 16 then run_bulk case obs
-   else if entry =? 14 then run_writers case obs
+   else if entry =? 14 then run_writers_text case obs
    else VList [VInt (-2)])%Z.
